@@ -49,7 +49,11 @@ def gen_episode(rng, big=False):
             g.request(outcome="200", **client_variants(rng, key, how))
         if ph + 1 < phases:
             g.add(w=1)        # append a backend: a new phase with a larger pool
-    return g.finish()
+    ops = g.finish()
+    if rng.random() < 0.3:
+        # clients served concurrently: each keeps its backend whatever the others do (last op)
+        ops.append("lb affconc %d %d %d" % (g.t, rng.choice([4, 8, 16]), rng.choice([500, 3000])))
+    return ops
 
 
 def oracle(ep, outs):
@@ -76,6 +80,8 @@ def oracle(ep, outs):
         o = outs[oi]
         oi += 1
         w = line.split()
+        if w[1] == "affconc" and o != "stable":
+            fails.append("affinity under concurrency: %s (%s)" % (o, line))
         if w[1] == "add" and o == "ok":
             pool.append(w[2])
             newest = w[2]
@@ -127,7 +133,7 @@ def check(ctx):
     ctx.cov.update({
         "evaluations": sum(len(C.op_lines(e)) for e in episodes),
         "distinct_nontrivial": len(nontriv),
-        "rule": "episodes: pools of 1..%d backends, 3..%d client groups whose attributed address is fixed while other headers / source port vary, 1-3 phases separated by an append; plus one episode of jumpHash(key,n) and FNV-1a evaluations compared value-for-value with the Go functions. non-trivial = episode with an append between phases" % (32 if ctx.thorough() else 8, 25 if ctx.thorough() else 12),
+        "rule": "episodes: pools of 1..%d backends, 3..%d client groups whose attributed address is fixed while other headers / source port vary, 1-3 phases separated by an append, a third of them ending with 4..16 clients picking concurrently (each must keep its backend); plus one episode of jumpHash(key,n) and FNV-1a evaluations compared value-for-value with the Go functions. non-trivial = episode with an append between phases" % (32 if ctx.thorough() else 8, 25 if ctx.thorough() else 12),
         "episodes": len(episodes), "traces_validated_against_impl": len(episodes),
         "jump_fnv_values_compared": len(episodes[-1]),
         "samples": [episodes[len(C.load_corpus(ID))][:14], episodes[-1][1:4]],
